@@ -247,13 +247,20 @@ Definition diff_validate_errors (a : diff_args) : nat :=
 Definition diff_selected (a : diff_args) (act : daction) : bool :=
   (is_different act && negb (da_onlysame a)) || (da_onlysame a && negb (is_different act)) || da_same a.
 
-Fixpoint diff_report (a : diff_args) (entries : list daction) (i : nat) (print_sep : bool) : list oline :=
+(* an entry of the report: its action, and how str(entry) ends (None = it renders) *)
+Definition dentry := (daction * option ufam)%type.
+Fixpoint diff_report (a : diff_args) (entries : list dentry) (i : nat) (print_sep : bool)
+  : list oline * option ufam :=
   match entries with
-  | [] => []
-  | act :: r =>
+  | [] => ([], None)
+  | (act, pr) :: r =>
       if n_quiet (da_noise a) then diff_report a r (S i) print_sep
       else if diff_selected a act
-           then (if print_sep then [OSep] else []) ++ OEntry i :: diff_report a r (S i) true
+           then match pr with
+                | Some u => ((if print_sep then [OSep] else []), Some u)   (* log.info(entry) raises in __str__ *)
+                | None => let '(ls, u) := diff_report a r (S i) true in
+                          ((if print_sep then [OSep] else []) ++ OEntry i :: ls, u)
+                end
            else diff_report a r (S i) print_sep
   end.
 Definition changes_found (entries : list daction) : bool := existsb is_different entries.
@@ -286,7 +293,7 @@ Definition diff_get_doc (count : nat) (index : Z) : pick :=
 Record diff_run := mkdrun { dr_run : crun; dr_picked : option (nat * nat) }.
 
 (* [report] = the outcome of Differ(lhs).compare_to(rhs) + get_report() for the picked pair *)
-Definition diff_main (estr : nat) (a : diff_args) (lhs rhs : source) (report : lres (list daction)) : diff_run :=
+Definition diff_main (estr : nat) (a : diff_args) (lhs rhs : source) (report : lres (list dentry)) : diff_run :=
   let stop s o := mkdrun (mkrun s o []) None in
   let nerr := diff_validate_errors a in
   if negb (Nat.eqb nerr 0) then stop (Exit 1) (hints nerr)
@@ -321,8 +328,11 @@ Definition diff_main (estr : nat) (a : diff_args) (lhs rhs : source) (report : l
                         | LRaise UEyaml => mkdrun (mkrun (Exit 1) [] []) (Some (li, ri))
                         | LRaise u => mkdrun (mkrun (Uncaught u) [] []) (Some (li, ri))
                         | LOk entries =>
-                            mkdrun (mkrun (Exit (if changes_found entries then 1 else 0))
-                                          (diff_report a entries 0 false) [])
+                            let '(ls, u) := diff_report a entries 0 false in
+                            mkdrun (mkrun (match u with
+                                           | Some x => Uncaught x
+                                           | None => Exit (if changes_found (map fst entries) then 1 else 0)
+                                           end) ls [])
                                    (Some (li, ri))
                         end
                     end
